@@ -17,6 +17,7 @@ class World:
 
     def __init__(self, zoo: dict, poolset: str = "plain", legacy: bool = False, mod=None):
         self.zoo = zoo
+        self.legacy = legacy
         self.zi = ZooInfo(zoo)
         self.mod = mod or load_py(zoo, legacy=legacy)
         self.poolset = poolset
@@ -25,6 +26,9 @@ class World:
 
     def cls(self, name: str):
         if name == "ASTNode":
+            if self.legacy:
+                from pyoak.legacy.node import AwareASTNode
+                return AwareASTNode
             from pyoak.node import ASTNode
             return ASTNode
         return getattr(self.mod, self.pre + name)
@@ -49,6 +53,8 @@ class World:
                 kw[n] = self.prop_value(c, f, rec["p"][n], variant)
             elif f["kind"] in ("tuple", "ftuple"):
                 kw[n] = tuple(objs[s] for s in rec["k"][n])
+            elif f["kind"] == "list":
+                kw[n] = [objs[s] for s in rec["k"][n]]
             else:
                 v = rec["k"][n]
                 kw[n] = None if v == "none" else objs[v]
